@@ -207,7 +207,7 @@ class Sandbox:
                 while len(self._current_stdout) > execution.stdout_depth:
                     abandoned_stdout = self._current_stdout.pop()
                     if execution.context is not None:
-                        self.append_output(abandoned_stdout.getvalue(), execution.context)
+                        self.append_output(self._captured_text(abandoned_stdout), execution.context)
                 return True
         try:
             return timeout(self.allowed_time, self._execute,
@@ -639,12 +639,16 @@ class Sandbox:
         """ Turn off any patches, store output """
         self._stop_patches()
         current_stdout = self._current_stdout.pop()
+        self.append_output(self._captured_text(current_stdout), context)
+
+    @staticmethod
+    def _captured_text(captured_stdout):
+        """ What was written to the given capture buffer. """
         try:
-            captured = current_stdout.getvalue()
+            return captured_stdout.getvalue()
         except ValueError:
             # The student closed their own standard output; what they printed is gone with it
-            captured = ""
-        self.append_output(captured, context)
+            return ""
 
     # Patching Functionality
     def _start_patches(self, *patches):
